@@ -4,8 +4,8 @@ import json, os, random, threading, time
 import vlib, bb, scen
 
 QUICK_PAIRS = [("http", "direct"), ("socks5", "direct"), ("socks4", "uphttp"), ("http", "upsocks5"), ("socks5", "upsocks4"),
-               ("reverse", "direct"), ("http", "uphttp"), ("reverse", "upsocks5")]
-ALL_PAIRS = [(p, u) for p in scen.LISTENER_PROTOS for u in scen.UPSTREAMS]
+               ("reverse", "direct"), ("http", "uphttp"), ("reverse", "upsocks5"), ("socks5", "upquic"), ("http", "uptls")]
+ALL_PAIRS = [(p, u) for p in scen.LISTENER_PROTOS for u in scen.UPSTREAMS + scen.EXTRA_UPSTREAMS]
 IO_MODES = [("splice", True, 65536), ("buffered", False, 65536), ("buffered1", False, 1)]
 
 
@@ -225,7 +225,7 @@ def run_relay(pid, tier, t0):
         "tunnels": len(results), "accepted": accepted, "not_matched_to_a_context(source port reused)": sum(1 for r in results if r.get("unmatched")), "trace_events": nev, "pairs": ["%s>%s" % p for p in pairs],
         "io_modes": [m[0] for m in IO_MODES], "bulk_tunnels": len(bulk), "bulk_bytes": sum(r["sent"]["c2s"] + r["sent"]["s2c"] for r in bulk), "scripts_available": len(scripts), "exhaustive": False, "checker_cmd": mc.cmd,
     }, ["loopback never drops or reorders", "one token = one byte in the trace-validated micro scenarios",
-        "TLS / QUIC pairings are not part of this run (fixtures for them are used by C07/C19)"])
+        "second hops over QUIC streams and over TLS are included (upquic, uptls); TLS-wrapped listeners are not"])
     return v.finish(ev, t0)
 
 
